@@ -254,6 +254,13 @@ func c05nRun(x *vmc.X, cfg vmc.Cfg) {
 	ops = append(ops, remotePut("remotePut(miskeyed)", func(idx int) (*pb.Message, int, string) {
 		return &pb.Message{Type: pb.Message_PUT_VALUE, Key: []byte(key), Record: sim.MakeRecord(other, sim.Val(8, "m"))}, -1, ""
 	}))
+	// a record that carries no key of its own, in a message that names the key (seed C05-h): it is not a record
+	// for that key, so it must be refused like any other mis-keyed record; its value would win the selection
+	ops = append(ops, remotePut("remotePut(record key unset)", func(idx int) (*pb.Message, int, string) {
+		rec := sim.MakeRecord(key, sim.Val(3, "u"))
+		rec.Key = nil
+		return &pb.Message{Type: pb.Message_PUT_VALUE, Key: []byte(key), Record: rec}, -1, ""
+	}))
 	ops = append(ops, op{"remoteGet", func(idx int) bool {
 		b, _ := proto.Marshal(&pb.Message{Type: pb.Message_GET_VALUE, Key: []byte(key)})
 		replies, _, reset, handled, _ := env.exchange(a, frame(b))
